@@ -46,9 +46,25 @@ func (tc *TypeCtx) FieldKey(si *StructInfo, f *FieldInfo) string {
 	return registerHeapKey("H$"+si.Sort[2:]+"$"+sanitize(f.Name), ArraySort(SInt, f.Sort))
 }
 
+// ElemKey names the storage of backing arrays with element type elem. Backing arrays are kept
+// apart by Go element type (a []byte can never alias a []*T without unsafe).
 func (tc *TypeCtx) ElemKey(elem types.Type) string {
 	es := tc.SortOf(elem)
-	return registerHeapKey("E$"+sanitize(es), ArraySort(SInt, ArraySort(SInt, es)))
+	return registerHeapKey("E$"+canonElemName(elem), ArraySort(SInt, ArraySort(SInt, es)))
+}
+
+func canonElemName(t types.Type) string {
+	t = types.Unalias(t)
+	if b, ok := t.(*types.Basic); ok {
+		switch b.Kind() {
+		case types.Uint8:
+			return "uint8"
+		case types.Int32:
+			return "int32"
+		}
+		return b.Name()
+	}
+	return sanitize(shortTypeName(t))
 }
 
 func (tc *TypeCtx) BoxKey(t types.Type) string {
